@@ -276,7 +276,7 @@ class StatelessClassRule(BaseLintRule):  # thailint: ignore[srp,dry]
             return None
         try:
             tree = ast.parse(context.file_content)
-        except SyntaxError:
+        except (SyntaxError, RecursionError, MemoryError):
             return None
         return {node.name: node for node in ast.walk(tree) if isinstance(node, ast.ClassDef)}
 
